@@ -10,9 +10,15 @@ def resultLine (r : R (ByteArray × Array Frame.FrameTrace)) : String :=
   | .ok (out, _) => s!"ok {out.size} {XXH64.toHex16 (XXH64.hash out)}"
   | .error e => s!"err {e.cls}"
 
+def resultLineDbg (r : R (ByteArray × Array Frame.FrameTrace)) : String :=
+  match r with
+  | .ok (out, _) => s!"ok {out.size} {XXH64.toHex16 (XXH64.hash out)}"
+  | .error e => s!"err {e.cls} @{e.site}"
+
 def step (_ : Unit) (ws : List String) : Unit × String :=
   match ws with
   | ["dec", cap, hx] => ((), resultLine (Frame.decompressAll (if hx == "-" then ByteArray.empty else ByteArray.ofHex hx) {} cap.toNat!))
+  | ["decdbg", cap, hx] => ((), resultLineDbg (Frame.decompressAll (if hx == "-" then ByteArray.empty else ByteArray.ofHex hx) {} cap.toNat!))
   | ["decf", fmt, cap, hx] => ((), resultLine (Frame.decompressAll (if hx == "-" then ByteArray.empty else ByteArray.ofHex hx) {} cap.toNat! { magicless := fmt == "1" }))
   | ["dec", cap, hx, dh] =>
       let d := if dh == "-" then ByteArray.empty else ByteArray.ofHex dh
